@@ -499,6 +499,24 @@ class Bundle:
             out[a] = idx[(r // (3 ** a) + a * (r % 7)) % idx.size] if idx.size else 0
         return out.astype(self.act_dtype)
 
+    def crowd_action(self, mask, r: int):
+        """Per-agent masks only: a masked-in joint action biased towards same-step conflicts - a leader picks
+        one of its legal values and a subset of the other agents (chosen by the bits of r) copy that value when
+        their own mask allows it, e.g. [b, a, a].  Falls back to `legal_action` for other layouts."""
+        if self.layout != "agents" or mask.shape[0] < 2:
+            return self.legal_action(mask, r)
+        base = self.legal_action(mask, r).astype(np.int64)
+        A = mask.shape[0]
+        leader = r % A
+        target = int(base[leader])
+        bits = (r // A) % (2 ** A)
+        if bits == 0:
+            bits = 2 ** A - 1
+        for a in range(A):
+            if a != leader and (bits >> a) & 1 and mask[a, target]:
+                base[a] = target
+        return base.astype(self.act_dtype)
+
     def illegal_action(self, mask, r: int):
         """An in-spec action that the mask forbids (for per-agent masks: agent r%A plays a
         masked-out action, the others play masked-in ones); None if none exists."""
@@ -524,7 +542,9 @@ class Bundle:
         if mask is None:
             mask = self.mask(ts)
         a = None
-        if mask is not None and mode in ("legal", "survive", "solve"):
+        if mask is not None and mode == "crowd":
+            a = self.crowd_action(mask, r)
+        elif mask is not None and mode in ("legal", "survive", "solve"):
             a = self.legal_action(mask, r)
             if mode == "survive" and a is not None:
                 for i in range(6):
